@@ -41,7 +41,8 @@ EXPLANATION = (
     " (R12) for every kind of literal, each member of the expression that the printer arm for that kind reads (u.integer, u.real, u.binary, u.logical, symbol.name) is stored by the grammar action of the corresponding `literal ::= TOK_.._LITERAL` production."
     " (R13) the fixed word a printer emits for a built-in constant singleton (LITERAL_PI, LITERAL_E, LITERAL_INFINITY ..) is a spelling the lexer maps to the token of the `constant ::= TOK_x` production that yields that singleton."
     " (R14) the arm of STMT_out for one kind of statement reads, of the statement node itself, only fields that STMTcreate or the constructor of that kind stores (symbol.name is stored by none)."
-    " (R15) no bare early exit of a printer function is decided by a value computed from exppp_linelength (reaching definitions; callees that return a layout value taint the variable they are assigned to): the line length decides layout, not content.")
+    " (R15) no bare early exit of a printer function is decided by a value computed from exppp_linelength (reaching definitions; callees that return a layout value taint the variable they are assigned to): the line length decides layout, not content."
+    " (R16) where TYPE_resolve replaces a reference node by the object a (possibly renaming) look-up found, the spelling of the reference must be kept somewhere, or a name imported with AS cannot be printed as written (two open findings).")
 from engines import call_args
 
 PLACEHOLDER_DEFAULT = re.compile(r"unknown|Reached default|not handled", re.I)
@@ -1550,6 +1551,48 @@ def r15_linelength_never_skips_content(prog, res):
     res.floor("R15.linelength_never_skips_content", "bare early exits of printer functions", n, 8)
 
 
+def r16_reference_spelling_kept(prog, res):
+    """`USE FROM a (x AS y)` makes the entity x of schema a visible in the using schema under the name y, and only under that name.  A
+    reference `p : y` is parsed into a reference node that carries the spelling `y`.  The printer can print `y` again only if that
+    spelling survives resolution.  TYPE_resolve looks the name up (through the renames) and *replaces* the reference node by the object
+    found (`*typeaddr = ref_type`): every site where the out-parameter is overwritten with the look-up result is an obligation `the
+    spelling of the reference is kept` (it is, if the function also stores the reference's symbol - none does today).  The printer then
+    has only the object's own name: `p : y` is printed as `p : x`, which does not resolve in the printed schema."""
+    f = prog.one("TYPE_resolve")
+    if f is None or not f.params:
+        res.broke("anchor vanished: TYPE_resolve")
+        return
+    pd = f.params[0]["d"]
+    looked = set()
+    for a in f.walk():
+        if a["k"] == "Assign":
+            r = strip(a["ch"][1])
+            while r is not None and r["k"] == "Cast" and r.get("ch"):
+                r = strip(r["ch"][0])
+            l = strip(a["ch"][0])
+            if r is not None and r["k"] == "Call" and (r.get("fn") or "").startswith("SCOPEfind") and l is not None and l["k"] == "Ref":
+                looked.add(l["d"])
+    keeps = any(a["k"] == "Assign" and strip(a["ch"][0]) is not None and strip(a["ch"][0])["k"] == "Member" and
+                any(y["k"] == "Member" and y.get("n") == "symbol" for y in walk(a["ch"][1])) and
+                any(y["k"] == "Ref" and y.get("d") in looked for y in walk(a["ch"][0])) for a in f.walk())
+    n = 0
+    for a in f.walk():
+        if a["k"] != "Assign":
+            continue
+        l = strip(a["ch"][0])
+        if l is None or l["k"] != "Unary" or l.get("op") != "*" or strip(l["ch"][0]) is None or strip(l["ch"][0]).get("d") != pd:
+            continue
+        if not any(y["k"] == "Ref" and y.get("d") in looked for y in walk(a["ch"][1])):
+            continue
+        n += 1
+        what = "entity" if any(y["k"] == "Member" and y.get("n") == "entity" for y in walk(a["ch"][1])) else "type"
+        res.add("R16.reference_spelling_kept", "R16|src/express/resolve.c|TYPE_resolve|%s-reference-replaced" % what, f.where(a), keeps,
+                "the reference's own symbol is stored with the object it resolves to" if keeps else
+                "the reference node is replaced by the %s found through the (possibly renaming) look-up and its spelling is dropped: a reference "
+                "through a USE/REFERENCE ... AS name is printed under the original name, which is not visible in the printed schema" % what)
+    res.floor("R16.reference_spelling_kept", "sites where TYPE_resolve replaces a reference by the object found", n, 2)
+
+
 def run(prog, res, tier):
     gr = Grammar(prog, res)
     if not gr.ok:
@@ -1572,3 +1615,4 @@ def run(prog, res, tier):
     r13_constant_spelling(prog, res, gr)
     r14_statement_fields_written(prog, res, gr)
     r15_linelength_never_skips_content(prog, res)
+    r16_reference_spelling_kept(prog, res)
